@@ -291,3 +291,218 @@ def run(chk: Check):
         _table(chk, 2, ["falsy", "truthy", "raise"], ALL_UDP, ["none", "raise", "take", "takesend"], ["plain", "cmdchat"], "n2-all")
         _table(chk, 3, ["falsy", "truthy", "raise"], ["falsy", "truthy", "raise", "take", "drop", "send"], ["none", "take"], ["plain"], "n3-core")
     chk.cov["exhaustive"] = True
+
+
+# =========================================================================================
+# Waiters.tla: wait_for / subscribe_async life cycle (message_handler.py, events.py)
+# =========================================================================================
+class VirtualTimeLoop(asyncio.SelectorEventLoop):
+    """asyncio loop whose clock only moves when the driver says so."""
+
+    def __init__(self):
+        super().__init__()
+        self._vt = 1000.0
+
+    def time(self):
+        return self._vt
+
+    def advance(self, dt):
+        self._vt += dt
+        for _ in range(4):
+            self.run_until_complete(asyncio.sleep(0))
+
+
+class WaiterImpl:
+    TIMEOUT_UNIT = 5.0     # seconds per model clock unit
+
+    def __init__(self, T):
+        from . import proxyenv
+        self.pe = proxyenv
+        self.loop = VirtualTimeLoop()
+        asyncio.set_event_loop(self.loop)
+        self.env = proxyenv.ProxyEnv(addons=[])
+        self.env.protocol.resend_task.cancel()
+        self.T = T
+        self.ws = []      # per waiter: dict(kind, task/ctx, fut, got)
+        self.pid = 0
+
+    def close(self):
+        try:
+            for x in self.ws:
+                if x.get("task") is not None and not x["task"].done():
+                    x["task"].cancel()
+            self.pump()
+            self.env.close()
+            for t in asyncio.all_tasks(self.loop):
+                t.cancel()
+            self.pump()
+        finally:
+            self.loop.close()
+
+    def pump(self):
+        for _ in range(4):
+            self.loop.run_until_complete(asyncio.sleep(0))
+
+    def step(self, act):
+        from hippolyzer.lib.base.network.transport import Direction
+        mh = self.env.region.message_handler
+        n = act["n"]
+        res = {}
+        if n == "Start":
+            rec = {"kind": act["kind"], "got": 0}
+            if act["kind"] == "wait":
+                async def waiter():
+                    fut = mh.wait_for(("CompletePingCheck",), take=act["take"],
+                                      timeout=(self.T * self.TIMEOUT_UNIT if act["to"] else None))
+                    rec["fut"] = fut
+                    try:
+                        await fut
+                        rec["got"] += 1
+                    except BaseException:      # timeout or cancellation: the future's state is the observation
+                        pass
+                rec["task"] = self.loop.create_task(waiter())
+            else:
+                ready = self.loop.create_future()
+                stop = self.loop.create_future()
+
+                async def block():
+                    with mh.subscribe_async(("CompletePingCheck",), take=act["take"]) as get_msg:
+                        ready.set_result(None)
+
+                        async def drain():
+                            while True:
+                                await get_msg()
+                                rec["got"] += 1
+                        d = asyncio.ensure_future(drain())
+                        try:
+                            await stop
+                        finally:
+                            d.cancel()
+                rec["task"] = self.loop.create_task(block())
+                rec["stop"] = stop
+            self.ws.append(rec)
+        elif n == "Cancel":
+            self.ws[act["i"] - 1]["task"].cancel()
+        elif n == "Close":
+            self.ws[act["i"] - 1]["stop"].set_result(None)
+        elif n == "Advance":
+            self.loop.advance(act["dt"] * self.TIMEOUT_UNIT)
+        elif n == "Message":
+            self.pid += 1
+            m = self.pe.ping(Direction.IN, self.pid, reliable=act["rel"])
+            exc = self.env.deliver(m)
+            self.pump()
+            wire = acks = 0
+            for p in self.env.transport.take():
+                mm = self.env.deser.deserialize(p.data)
+                if mm.name == "CompletePingCheck":
+                    wire += 1
+                elif mm.name == "PacketAck" and p.direction == Direction.OUT:
+                    acks += 1
+            res = {"wire": wire, "dropAcks": acks, "escaped": exc}
+        self.pump()
+        futs = []
+        for x in self.ws:
+            if x["kind"] == "async":
+                futs.append("async")
+                continue
+            f = x.get("fut")
+            if f is None or not f.done():
+                futs.append("pending")
+            elif f.cancelled():
+                futs.append("cancelled")
+            elif f.exception() is not None:
+                futs.append("timeout" if isinstance(f.exception(), asyncio.TimeoutError) else "exc:" + type(f.exception()).__name__)
+            else:
+                futs.append("result")
+        res["futs"] = futs
+        res["got"] = [x["got"] for x in self.ws]
+        return res
+
+
+def _wdiff(act, obs, got):
+    bad = []
+    if got["futs"] != list(obs["s"]["futs"]):
+        bad.append(("futures", list(obs["s"]["futs"]), got["futs"]))
+    if got["got"] != list(obs["s"]["got"]):
+        bad.append(("messages received by waiters", list(obs["s"]["got"]), got["got"]))
+    if act["n"] == "Message":
+        o = obs["o"]
+        if got["escaped"]:
+            bad.append(("exception escaped", got["escaped"]))
+        if got["wire"] not in o["wireAllowed"]:
+            bad.append(("wire emissions", o["wireAllowed"], got["wire"]))
+        want_ack = 1 if (act["rel"] and got["wire"] == 0) else 0
+        if got["dropAcks"] != want_ack:
+            bad.append(("drop ack to sender", want_ack, got["dropAcks"]))
+    return bad
+
+
+_WG = None
+_WT = 2
+
+
+def _wreplay(edge_ids):
+    g = _WG
+    res = []
+    for ei in edge_ids:
+        e = g.edges[ei]
+        impl = WaiterImpl(_WT)
+        try:
+            hist = []
+            for pe_ in g.path_to(e["_s"]):
+                impl.step(pe_["act"])
+                hist.append(pe_["act"])
+            got = impl.step(e["act"])
+            hist.append(e["act"])
+            bad = _wdiff(e["act"], e["obs"], got)
+            if bad:
+                res.append({"history": hist, "mismatches": bad[:4], "expected": e["obs"], "observed": got})
+        finally:
+            impl.close()
+    return res
+
+
+WINV = ["FinishedNeverTakes", "ElapsedMeansGone", "ForwardRule", "WaitOnce"]
+
+
+def _waiters(chk: Check, n, depth, label):
+    global _WG, _WT
+    cfg = "SPECIFICATION MSpec\nCONSTANTS N = %d T = 2 Depth = %d\n%s" % (n, depth, "".join("INVARIANT %s\n" % i for i in WINV))
+    recs = common.export_records(chk, "Waiters_MBT", cfg, "Waiters " + label)
+    chk.cov["tlc_runs"][-1]["invariants"] = WINV
+    g = common.Graph(recs)
+    _WG, _WT = g, 2
+    ids = g.reachable_edges()
+    results = common.parallel_map(_wreplay, common.chunked(ids, common.NCPU * 4))
+    chk.count(len(ids))
+    chk.cov["traces_validated_against_impl"] += len(ids)
+    for e in g.edges:
+        if e["act"]["n"] == "Message" and e["src"]:
+            chk.nontrivial(("waiters", e["_s"], common.skey(e["act"])))
+    for bads in results:
+        for b in bads:
+            m = b["mismatches"][0]
+            chk.violation("B1 waiters %s: %s differs from Waiters specification" % (label, m[0]),
+                          {"kind": "b1-waiters", "what": m[0], "acts": [a["n"] for a in b["history"]]}, b)
+    pick = [e for e in g.edges if e["act"]["n"] == "Message" and len(g.path_to(e["_s"])) >= 3]
+    if pick:
+        e = pick[len(pick) // 2]
+        chk.sample({"binding": "B1 waiters " + label, "path": [p["act"] for p in g.path_to(e["_s"])] + [e["act"]],
+                    "expected": e["obs"]})
+
+
+_run_dispatch = run
+
+
+def run(chk: Check):
+    _run_dispatch(chk)
+    chk.cov["rule"] += ("; waiters: every edge of the bounded Waiters model (start wait_for/subscribe_async with/without take and timeout, "
+                        "cancel the awaiting task, leave the block, advance the clock, matching message) replayed on a virtual-time event loop")
+    chk.assumptions += ["a waiter whose coroutine was cancelled but whose timeout has not elapsed may or may not still withhold a message (left open)",
+                        "asyncio time is virtual (loop.time overridden); one model clock unit = 5 s"]
+    if chk.tier == "quick":
+        _waiters(chk, 2, 6, "n2-d6")
+    else:
+        _waiters(chk, 2, 8, "n2-d8")
+        _waiters(chk, 3, 7, "n3-d7")
